@@ -218,6 +218,11 @@ def runStream (f : Fields) : String :=
       | (snk', st', .ok n) => (st', snk', acc ++ [s!"wa{n}@{snk'.out.size}"], false)
       | (snk', st', .error e) =>
         (st', snk', acc ++ [s!"wa{verdictOf (Except.error e : Except Err Unit)}@{snk'.out.size}"], false)
+    | ["wx", h] =>
+      -- `Write::write_all` as std defines it: repeat `write`; `Ok(0)` on a non-empty rest is `WriteZero`
+      let data := (bytesOfHex h).getD []
+      match st.writeAll data snk with
+      | (snk', st', r) => (st', snk', acc ++ [s!"wx{verdictOf r}@{snk'.out.size}"], false)
     | ["f"] =>
       match st.flush snk with
       | (snk', r) => (st, snk', acc ++ [s!"f{verdictOf r}"], false)
